@@ -39,7 +39,7 @@ def cases(tier, seed):
         out.append({"what": "stack", "kind": "extruded", "n": 2, "m": 1, "tiers": 2, "amount": amount})
     frames = sorted({0, 4, 1 + seed % 7}) if tier == "quick" else list(range(len(FRAMES)))
     for fr in frames:
-        for shape in ("Cylinder", "SemiCylinder", "Frustum", "Elbow", "ExtrudedRing", "Hemisphere", "OneCoreDisk", "FourCoreDisk", "HalfDisk", "Oval", "WrappedDisk", "QuarterDisk", "QuarterSplineDisk", "HalfSplineDisk", "SplineDisk", "SplineDisk_circular"):
+        for shape in ("Cylinder", "SemiCylinder", "Frustum", "Elbow", "ExtrudedRing", "RevolvedRing", "Hemisphere", "OneCoreDisk", "FourCoreDisk", "HalfDisk", "Oval", "WrappedDisk", "QuarterDisk", "QuarterSplineDisk", "HalfSplineDisk", "SplineDisk", "SplineDisk_circular"):
             out.append({"what": "round", "shape": shape, "frame": fr})
     for n, m, t in ((2, 3, 2), (3, 1, 1), (1, 1, 3)):
         out.append({"what": "delete", "n": n, "m": m, "tiers": t})
@@ -180,6 +180,9 @@ def run_round(case):
         e = cb.Elbow(P([0, 0, 0]), P([0.5, 0, 0]), Vv([0, 0, 1]), 1.1, P([2, 0, 0]), Vv([0, 1, 0]), 0.4)
     elif name == "ExtrudedRing":
         e = cb.ExtrudedRing(P([0, 0, 0]), P([0, 0, 0.8]), P([1.0, 0, 0]), 0.5, 6)
+    elif name == "RevolvedRing":
+        # a ring of 6 blocks revolved about the (frame's) z axis; every block touches the outer surface r = 1.0
+        e = cb.RevolvedRing(P([0, 0, 0]), P([0, 0, 1]), cb.Face([P([0.5, 0, 0.1]), P([0.5, 0, 0.9]), P([1.0, 0, 0.9]), P([1.0, 0, 0.1])]), 6)
     elif name == "Hemisphere":
         e = cb.Hemisphere(P([0, 0, 0]), P([0.8, 0, 0]), Vv([0, 0, 1]))
     else:
@@ -208,7 +211,14 @@ def run_round(case):
 
     if e is not None:
         ops = e.operations
-        core, shell = list(e.core), list(e.shell)
+        try:
+            core, shell = list(e.core), list(e.shell)
+            grid_ops = [o for row in e.grid for o in row]
+        except Exception as err:
+            bad("core-shell-grid-raised", f"{type(err).__name__}: {err}")
+            return violations, 1
+        if sorted(id(o) for o in grid_ops) != sorted(id(o) for o in ops):
+            bad("grid-not-a-partition-of-operations", f"{len(grid_ops)} vs {len(ops)}")
         ids = [id(o) for o in ops]
         if sorted(id(o) for o in core + shell) != sorted(ids) or len(set(id(o) for o in core + shell)) != len(core) + len(shell):
             bad("core-shell-not-a-partition", f"{len(core)} core + {len(shell)} shell vs {len(ops)} operations")
@@ -240,7 +250,7 @@ def run_round(case):
                 r = np.linalg.norm(np.cross(pts - o, axv), axis=1)
                 if name == "Frustum":
                     R = 0.7 + (0.4 - 0.7) * h / 1.5
-                elif name == "ExtrudedRing":
+                elif name in ("ExtrudedRing", "RevolvedRing"):
                     R = np.full(8, 1.0)
                 else:
                     R = np.full(8, 0.7)
